@@ -149,19 +149,35 @@ def run_shard(spec):
         every earlier one; earlier environments stay alive (several sequences in one process)."""
         nonlocal mgr, variables, elements, vref, eref, madexpr, madeval
         mgr = xdeps.Manager()
-        variables = {v: (1.0 if first else rng.choice(VALUES)) for v in VARS}
+        vals = {v: (1.0 if first else rng.choice(VALUES)) for v in VARS}
         if first:
-            variables.update({"a": 2.0, "b.c": -4.0, "k%1": 3.0, "x_1": 0.5, ".p": 0.0, "on_x1": 1.0, "lrg": 700.0})
+            vals.update({"a": 2.0, "b.c": -4.0, "k%1": 3.0, "x_1": 0.5, ".p": 0.0, "on_x1": 1.0, "lrg": 700.0})
         ev = (lambda x: x) if first else (lambda x: rng.choice(VALUES))
         if get == "attr":
-            elements = {"el": Elem(a=ev(1.5), b=ev(2.5)), "q.1": Elem(k1=ev(-0.25), l=ev(0.0))}
+            els = {"el": Elem(a=ev(1.5), b=ev(2.5)), "q.1": Elem(k1=ev(-0.25), l=ev(0.0))}
         else:
-            elements = {"el": {"a": ev(1.5), "b": ev(2.5)}, "q.1": {"k1": ev(-0.25), "l": ev(0.0)}}
+            els = {"el": {"a": ev(1.5), "b": ev(2.5)}, "q.1": {"k1": ev(-0.25), "l": ev(0.0)}}
+        # half of the environments build their evaluators over still EMPTY containers and fill them afterwards
+        # (as a sequence loader does): the evaluators must see what the containers hold when an expression is evaluated
+        late = (not first) and rng.random() < 0.5
+        variables, elements = ({}, {}) if late else (dict(vals), dict(els))
         vref = mgr.ref(variables, "v")
         eref = mgr.ref(elements, "e")
         fref = mgr.ref(math, "f")
         madexpr = MadxEval(vref, fref, eref, get=get).eval
         madeval = MadxEval(variables, math, elements, get=get).eval
+        if late:
+            counters["environments_filled_after_building_the_evaluators"] = counters.get("environments_filled_after_building_the_evaluators", 0) + 1
+            for k, v in vals.items():
+                if rng.random() < 0.5:
+                    vref[k] = v
+                else:
+                    variables[k] = v
+            for k, v in els.items():
+                if rng.random() < 0.5:
+                    eref[k] = v
+                else:
+                    elements[k] = v
         ENVS.append((mgr, variables, elements))
         counters["environments"] = counters.get("environments", 0) + 1
     ENVS = []
